@@ -1173,6 +1173,7 @@ int main(int argc, char** argv) {
   if (want("cross")) part_cross();
   if (want("sampled")) part_sampled(r);
   if (want("chain")) part_chain(r);
+  if (want("optypes")) part_optypes(r);
 #endif
   c.sample("bswap16 all 2^16, bswap24/bswap24s/ext24 all 2^24, every 16-bit value through re/le/be_(u)int16_t incl. ++/--");
   c.sample("be_uint16_t w=0x0102: bytes 01 02; ++w must return 0x0103 and leave bytes 01 03 (native uint16_t ++x)");
